@@ -112,6 +112,7 @@ def fi_ops(shape):
             ops += [["transact", ["sf"], c, q]]
         ops += [["transact", R, "e", 2.0], ["transact", R, "h", 2.0], ["stransact", ["sf"], 8.0], ["stransact", R, 4.0]]
         ops += [["close", R, "sf"], ["close", ["sf"], "c"], ["flatten", ["sf"]], ["flatten", R]]
+        ops += [["alloc", R, "sf", 8.0], ["alloc", R, "sf", -4.0]]  # capital handed to / taken from the sub-strategy
         ops += [["rebbase", R, "sf", 0.5, 32.0], ["rebbase", ["sf"], "c", 0.5, 16.0], ["reb", ["sf"], "f", 0.5]]
         ops += [["algos", R, {"weights": {"sf": 0.75, "e": 0.25}, "notional_value": 32.0}, "Rebalance"]]
     else:
